@@ -110,7 +110,8 @@ def run(ck, F):
             # yaserde / CheckRestrictions: same trait method on the wrapped value
             fw = [(bb, t) for bb, t in calls if (M.Body.callee_decl(t) or "") == fwd_decl]
             others = [M.Body.callee_decl(t) for bb, t in calls if (M.Body.callee_decl(t) or "") != fwd_decl and not any(
-                (M.Body.callee(t) or "").endswith(a) or (M.Body.callee_decl(t) or "").endswith(a) for a in ALLOWED_AUX)]
+                (M.Body.callee(t) or "").endswith(a) or (M.Body.callee_decl(t) or "").endswith(a) for a in ALLOWED_AUX)
+                and not _wrapping_map(F, B, t)]
             if len(fw) != 1:
                 ck.violation("R2", f"{short}::{m}", b["span"],
                              f"{short}::{m} contains {len(fw)} calls of {fwd_decl} on the wrapped value (expected exactly one): the wrapper "
@@ -140,7 +141,7 @@ def run(ck, F):
                 problems.append(f"additional calls {others}")
             # result returned
             flow = {k for k, _ in M.result_flow(B, fbb, ft)}
-            if not flow <= {"returned", "propagated"}:
+            if not flow <= {"returned", "propagated", "mapped:returned", "mapped:propagated"}:
                 problems.append(f"the forwarded result is {sorted(flow)}")
             if "propagated" in flow:
                 # Ok path must return Ok(()) or Ok(Self{inner: Arc::new(<payload>)})
@@ -163,3 +164,34 @@ def run(ck, F):
                 ck.violation("R2", f"{short}::{m}", sp(B, fbb), f"{short}::{m} is not a pure forwarding: " + "; ".join(problems), fn=short)
             else:
                 ck.ok("R2", f"{short}::{m}", sp(B, fbb), f"{short}::{m} forwards to the wrapped value with unchanged parameters and returns its result", fn=short)
+
+
+def _wrapping_map(F, B, t):
+    """`result.map(|inner| Self { inner: Arc::new(inner) })`: Result::map with a closure that does nothing but wrap its argument
+    into a fresh Arc inside a MultiRef"""
+    if not (M.Body.callee_decl(t) or "").endswith("Result::<T, E>::map") or len(t["args"]) != 2:
+        return False
+    for o in M.trace(B, t["args"][1], ()):
+        if o.kind != "aggregate" or not o.rv.get("closure"):
+            return False
+        cb = F.lib.body(o.rv["closure"])
+        if cb is None or not cb.get("mir"):
+            return False
+        CB = M.Body(cb)
+        cs = CB.calls()
+        if len(cs) != 1 or not (M.Body.callee(cs[0][1]) or "").endswith("Arc::<T>::new"):
+            return False
+        arg = M.trace(CB, cs[0][1]["args"][0], IDENT)
+        if not (arg and all(x.kind == "arg" and x.local == 2 for x in arg)):
+            return False
+        for i in sorted(CB.reach):
+            for st in CB.blocks[i]["stmts"]:
+                if st["k"] == "assign" and st["p"]["l"] == 0 and not st["p"].get("proj"):
+                    rv = st["rv"]
+                    if not (rv["k"] == "aggregate" and (rv.get("adt") or "").endswith("MultiRef")):
+                        return False
+                    inner = M.trace(CB, rv["ops"][0], IDENT)
+                    if not all(x.kind == "call" and x.bb == cs[0][0] for x in inner):
+                        return False
+        return True
+    return False
